@@ -87,7 +87,7 @@ def _z3v():
 
 
 def write(prop, ev):
-    d = os.path.join(ROOT, 'evidence')
+    d = os.environ.get('VERIF_EVIDENCE_DIR') or os.path.join(ROOT, 'evidence')     # (development aid: mutation runs write elsewhere)
     os.makedirs(d, exist_ok=True)
     with open(os.path.join(d, prop + '.json'), 'w') as f:
         json.dump(ev, f, indent=1, default=str)
